@@ -16,11 +16,37 @@ LEVEL = "proof"
 THEOREMS = ["Mistune.escape_no_specials", "Mistune.safeEntity_no_specials", "Mistune.escapeUrl_attr_safe", "Mistune.quote_ok", "Mistune.escape_eq_flatMap",
             "Mistune.templates_ok", "Mistune.templates_none_opaque", "Mistune.evalPieces_safe", "Mistune.evalTmpl_safe", "Mistune.renderTok_safe", "Mistune.render_safe"]
 
-CANARIES = ['<xq9 yq9="1">', '"><xq9 onq9="1">', "'><xq9>", '" onq9="1', "</p><xq9>", "-->", "<!--", "<script>xq9</script>", "&lt;xq9&gt;", '\\"<xq9>', "`<xq9>`", "javascript:xq9"]
+CANARIES = ['onq9=1//', '<xq9 yq9="1">', '"><xq9 onq9="1">', "'><xq9>", '" onq9="1', "</p><xq9>", "-->", "<!--", "<script>xq9</script>", "&lt;xq9&gt;", '\\"<xq9>', "`<xq9>`", "javascript:xq9"]
 # free-text fields of tokens (data that comes verbatim from the input); alphabet-restricted fields (ruby raw/rt, heading id,
 # table align, admonition name, list start/depth, footnote index, checked) are refinements of the grammar and are not injected
 RAW_TYPES = {"text", "codespan", "inline_html", "block_code", "block_html", "block_error", "inline_math", "block_math", "include"}
 ATTR_FIELDS = {"title", "info", "alt", "class", "figclass", "figwidth", "url", "src", "target", "width", "height", "key"}
+
+
+ALLOWED = {"tags": None, "attrs": None}       # element / attribute names that occur in the literals of the render templates (by design)
+
+
+def design_names():
+    """from the render methods of the working tree: every element name and attribute name a template literal writes"""
+    if ALLOWED["tags"] is None:
+        import tmpl
+        tags, attrs = set(), set()
+        for d in ("rst", "fenced"):
+            md = configs.make(configs.C("x", plugins=configs.PLUGINS, directives=d))
+            def walk(x):
+                if isinstance(x, list):
+                    if len(x) == 2 and x[0] == "lit" and isinstance(x[1], str):
+                        tags.update(t.lower() for t in re.findall(r"</?([A-Za-z][A-Za-z0-9]*)", x[1]))
+                        attrs.update(a.lower() for a in re.findall(r"[\s\"]([A-Za-z][A-Za-z-]*)=\"", " " + x[1]))
+                        attrs.update(a for a in ("disabled", "checked", "open") if re.search(r"\s%s[\s/>]" % a, x[1]))
+                    for y in x:
+                        walk(y)
+            for t in tmpl.extract(md).values():
+                walk(t)
+        tags.add("h")           # "<h" + level
+        tags.update("h%d" % i for i in range(1, 7))
+        ALLOWED["tags"], ALLOWED["attrs"] = tags, attrs
+    return ALLOWED["tags"], ALLOWED["attrs"]
 
 
 class Seen(HTMLParser):
@@ -28,11 +54,17 @@ class Seen(HTMLParser):
         super().__init__(convert_charrefs=True)
         self.bad = []
         self.urls = []
+        self.foreign = []
 
     def handle_starttag(self, tag, attrs):
+        tags, names = design_names()
+        if tag not in tags:
+            self.foreign.append("element <%s>" % tag)
         if "xq9" in tag:
             self.bad.append("element <%s>" % tag)
         for k, v in attrs:
+            if k not in names:
+                self.foreign.append("attribute %s on <%s>" % (k, tag))
             if "q9" in k:
                 self.bad.append("attribute %s on <%s>" % (k, tag))
             if k in ("href", "src") and v is not None:
@@ -61,6 +93,8 @@ def analyse(htmltext):
         p.feed(htmltext); p.close()
     except Exception as e:
         return ["html.parser failed: %r" % e], []
+    if p.foreign and not p.bad:
+        p.bad = ["not emitted by design: " + p.foreign[0]]
     return p.bad, p.urls
 
 
@@ -148,9 +182,10 @@ DOC_TEMPLATES = ["{c}", "para {c} text", "# head {c}", "> quote {c}", "- item {c
                  "${c}$", "$$\n{c}\n$$", "[a({c})]", ">! {c}", "==a {c}==", "~~{c}~~", "- [ ] {c}", "http://a.b/{c}", "<a href=\"{c}\">", "<div {c}>\n</div>", "<!-- {c} -->",
                  ".. note:: {c}\n   :class: {c}\n\n   body {c}", "```{{note}} {c}\n:class: {c}\nbody {c}\n```", ".. image:: {c}\n   :alt: {c}\n   :width: 10{c}\n   :target: {c}\n   :align: {c}",
                  ".. figure:: p.png\n   :figclass: {c}\n   :figwidth: {c}\n   :align: {c}\n\n   cap {c}", ".. toc:: {c}\n   :max-level: {c}\n\n# h {c}", ".. unknown:: {c}\n\n   {c}", "```{{unknown}} {c}\n{c}\n```",
-                 ".. include:: {c}", ".. admonition:: {c}", "``` {c} {c}\nx\n```", "~~~ \"{c}\nx\n~~~"]
+                 ".. include:: {c}", ".. admonition:: {c}", "![[a](<{c}> \"t\nu\")](x.png)", "![[a]({c} 't\nu')](x.png)", "![![i](<{c}> \"t\nu\")](y.png)", "![*e* [a][r] `{c}`](x.png)\n\n[r]: <{c}> \"t\nu\"",
+                 "![<b title=\"{c}\nx\">](x.png)", "[![i](s \"{c}\")](u \"t\nu\")", "# h [a](<{c}> \"t\nu\")\n\n.. toc::", "![a\n[b](<{c}> \"t\")\nc](x.png)", "``` {c} {c}\nx\n```", "~~~ \"{c}\nx\n~~~"]
 
-SCHEMES = ["javascript:alert(1)", "JaVaScRiPt:alert(1)", "vbscript:x", "file:///etc/passwd", "data:text/html,<x>", "data:image/png;base64,AA", " javascript:x", "java\tscript:x",
+SCHEMES = ["data:image/svg+xml;base64,AA", "data:text/html;base64,AA", "file:///usr/share/doc/x", "file:///etc/passwd", "javascript:void(0)", "javascript:void(1)", "javascript:alert(1)", "JaVaScRiPt:alert(1)", "vbscript:x", "file:///etc/passwd", "data:text/html,<x>", "data:image/png;base64,AA", " javascript:x", "java\tscript:x",
            "javascript&colon;x", "javascript&#58;x", "javascript&#x3a;x", "&#106;avascript:x", "java&#x73;cript:x", "javascript&amp;colon;x", "javascript&amp;#58;x", "&amp;#106;avascript:x",
            "\x01javascript:x", "JAVASCRIPT&Colon;x", "javascript%3Ax", "data&colon;text/html,x", "Data:x", "FILE:x", "vbscript&NewLine;:x", "java&Tab;script:x", "javascript&amp;amp;colon;x"]
 URL_TEMPLATES = ["[x]({u})", "[x](<{u}>)", "![x]({u})", "[r]: {u}\n\n[r]", "[r]: <{u}>\n\n![r]", "<{u}>", ".. image:: {u}", ".. image:: p.png\n   :target: {u}", ".. figure:: {u}\n\n   c",
@@ -188,8 +223,13 @@ def doc_level(ctx, n, cfgs):
         if bad and c.get("escape", True):
             where = "unknown-directive" if ("unknown" in doc and 'class="error"' in out) else ("block_error" if 'class="error"' in out else "doc")
             ctx.fail("inject-doc:" + where, "escape=True config %s: input text reaches the output as markup (%s) for %r" % (c["name"], bad[0], doc), {"config": c, "doc": doc, "output": out[:600]})
+        allowed = c.get("allow_harmful")
         for tag, k, v in urls:
             # with escaping off raw HTML of the input passes through by design: the URL clause is about Markdown destinations
+            if allowed is True:
+                continue            # the caller explicitly allowed every scheme
+            if allowed and "".join(ch for ch in v if ch not in "\t\r\n").lstrip().lower().startswith(tuple(a.lower() for a in allowed)):
+                continue            # the caller explicitly allowed this prefix
             if harmful(v) and (kind == "scheme" or c.get("escape", True)):
                 ctx.fail("scheme:%s.%s" % (tag, k), "config %s: %s %s=%r is a script-capable URL, from %r" % (c["name"], tag, k, v, doc), {"config": c, "doc": doc, "output": out[:400]})
     return cnt
@@ -245,9 +285,12 @@ def run(ctx):
     q = ctx.quick()
     esc_cfgs = [configs.C("core"), configs.C("all", plugins=configs.PLUGINS), configs.C("all-fenced", plugins=configs.PLUGINS, directives="fenced"),
                 configs.C("all-rst", plugins=configs.PLUGINS, directives="rst"), configs.C("all-hardwrap", hard_wrap=True, plugins=configs.PLUGINS)]
-    noesc = [configs.C("noesc-all-rst", escape=False, plugins=configs.PLUGINS, directives="rst"), configs.C("noesc-core", escape=False)]
+    noesc = [configs.C("noesc-all-rst", escape=False, plugins=configs.PLUGINS, directives="rst"), configs.C("noesc-core", escape=False),
+             # explicit allow-lists: only URLs that start with an allowed entry may pass
+             configs.C("allow-svg-data", plugins=["url"], directives="rst", allow_harmful=["data:image/svg+xml"]), configs.C("allow-doc-files", allow_harmful=["file:///usr/share/doc/"]),
+             configs.C("allow-js-void", escape=False, allow_harmful=["javascript:void(0)"])]
     docs = [gen.md_any(ctx.rng, 7) for _ in range(300 if q else 4000)] + [t.replace("{c}", "zz").replace("{{", "{").replace("}}", "}") + "\n" for t in DOC_TEMPLATES]
-    n0 = tmpltie.stage(ctx, docs if q else docs[:3000], esc_cfgs + noesc)
+    n0 = tmpltie.stage(ctx, docs if q else docs[:3000], [c for c in esc_cfgs + noesc if c.get("allow_harmful") is None])    # (the model renders with the default scheme lists)
     n1 = token_level(ctx, docs, esc_cfgs)
     n2 = doc_level(ctx, 5000 if q else 80000, esc_cfgs + noesc)
     n2 += api_level(ctx, 150 if q else 3000)
